@@ -228,7 +228,7 @@ func (fv *FV) execRangeMap(st *State, x *ast.RangeStmt, label string, ord int, l
 	fv.define(body, eq(fv.cardOf(mc.ks, sto(seen.S, k.S, "true")), app("+", fv.cardOf(mc.ks, seen.S), "1")))
 	lc := &loopCtx{label: label}
 	fv.ctx = append(fv.ctx, lc)
-	fv.ghostAt(body, fmt.Sprintf("loop %d head", ord), x.Pos())
+	fv.ghostAt(body, fmt.Sprintf("loop %d head", ord), x.Body.Lbrace+1)
 	end := fv.execBlock(body, x.Body.List)
 	fv.ctx = fv.ctx[:len(fv.ctx)-1]
 	for k, end := range append([]*State{end}, lc.continues...) {
@@ -240,7 +240,7 @@ func (fv *FV) execRangeMap(st *State, x *ast.RangeStmt, label string, ord int, l
 			phase = fmt.Sprintf("preserve@continue%d", k)
 		}
 		end.ghost[itName] = Term{S: app("+", it.S, "1"), Sort: sInt, T: types.Typ[types.Int]}
-		fv.ghostAt(end, fmt.Sprintf("loop %d end", ord), x.Pos())
+		fv.ghostAt(end, fmt.Sprintf("loop %d end", ord), x.Body.Lbrace+1)
 		fv.checkInvariants(end, ls, ord, phase, x.Pos(), scopePos)
 	}
 	after := fv.merge(append([]*State{exit}, lc.breaks...)...)
